@@ -2,8 +2,9 @@
 
 Op lines are fault sequences on the REAL broker: `life run <cond> <cause> [<order>]` puts a subject connection
 into a buffer condition (idle, own outgoing ring full, incoming ring full behind a third party's full outgoing
-ring, processor parked in its own outgoing ring, cross-blocked pair, a packet that does not fit beside a read
-block arriving in pieces), ends it for a cause (DISCONNECT, abrupt close, protocol error, oversized packet,
+ring, processor parked in its own outgoing ring, cross-blocked pair, a packet that needs the last read block of
+the ring arriving in pieces - never completed / completed: the regression scenarios of finding F3, repaired by
+8f682d1), ends it for a cause (DISCONNECT, abrupt close, protocol error, oversized packet,
 keep-alive expiry, Server.Close) with the third party ending before or after it, and reports
 
     [held-up-by-third] [held-up-by-self] torn=. will=. witness-alive=. srvclose=. goroutines-left=.
@@ -17,7 +18,8 @@ delivery from the subject; the harness then ends that connection and the teardow
 except when the cause is Server.Close, whose return the property demands without exemption.
 `held-up-by-self` (the subject's processor is parked behind the subject's OWN client) is no exemption since
 the repair b77088f (finding F7): the oracle rejects it; it is still seen - as the open finding F8 - where the
-cause cannot be noticed at all (`selffull keepalive`: the receiver waits for ring space, no read deadline is armed).
+cause cannot be noticed at all (`selffull keepalive`: the receiver waits because the incoming ring is completely
+full, no read deadline is armed).
 """
 from .props import Prop, Run, register, COMMON_TRUSTED
 from .props_ka import ka_oracle, ka_recv_parked
@@ -45,17 +47,10 @@ def life_nontrivial(op, out):
     return out not in ('reset', 'bad-op')
 
 
-def chunk_wedge(ops_prefix, impl=None, spec=None):
-    """known-finding class F3: a packet longer than ring size - read block that arrives in pieces, ended by the
-    peer (close) or by silence (keep-alive): neither receiver nor processor reads the socket any more"""
-    w = ops_prefix[-1].split()
-    return len(w) >= 4 and w[0] == 'life' and w[1] == 'run' and w[2] == 'chunked' and w[3] in ('close', 'keepalive')
-
-
 def recv_parked(ops_prefix, impl=None, spec=None):
-    """known-finding class F8: keep-alive on a connection whose receiver waits for ring space (both rings full behind a
-    client that has stopped reading and kept sending): no socket read is pending, the deadline is not armed; the
-    harness reports `held-up-by-self` and ends the client"""
+    """known-finding class F8: keep-alive on a connection whose receiver waits because the incoming ring is completely
+    full (both rings full behind a client that has stopped reading and kept sending): no socket read is pending, the
+    deadline is not armed; the harness reports `held-up-by-self` and ends the client"""
     w = ops_prefix[-1].split()
     if w and w[0] == 'ka':
         return ka_recv_parked(ops_prefix, impl, spec)
@@ -78,13 +73,15 @@ LIFE_ASSUMPTIONS = [
 ]
 
 register(Prop(
-    'C16', 'Mqtt.Properties.C16', ['life'],
-    runs=[Run('life', quick=11, thorough=40, seeds_thorough=2),
+    # 'ka': the witnesses of F7 / F8 (findings of C19 AND C16) are ka lines; they are judged by `life_oracle`
+    # (= the C19 oracle on ka lines), not literally (the specification line of a ka scenario has no window field)
+    'C16', 'Mqtt.Properties.C16', ['life', 'ka'],
+    runs=[Run('life', quick=11, thorough=44, seeds_thorough=2),
           Run('life-pairs', quick=7, thorough=36, seeds_thorough=2),
           Run('life-srv', quick=5, thorough=20, seeds_thorough=2),
-          Run('life-chunked', quick=1, thorough=3, seeds_thorough=1, extra=())],
+          Run('life-chunked', quick=3, thorough=12, seeds_thorough=1, extra=())],
     oracle=life_oracle, nontrivial=life_nontrivial, spec_total=False,
-    classes={'chunk_wedge': chunk_wedge, 'recv_parked': recv_parked},
+    classes={'recv_parked': recv_parked},
     assumptions=LIFE_ASSUMPTIONS,
     trusted=COMMON_TRUSTED + [
         "regenerated facts: statement order of service.stop (CAS, close(done), conn.Close, in.Close, out.Close, wgStopped.Wait, unsubscribe, "
